@@ -41,6 +41,7 @@ func init() {
 			{ID: "C05-R15", Title: "hash keys carry the payload itself (shared with C15-R3)", Floor: 3, Run: c15r3},
 			{ID: "C05-R16", Title: "objects kept in process-wide tables are written only while they are built (shared with C08-R8)", Floor: 5, Run: cachedObjectsImmutable},
 			{ID: "C05-R17", Title: "a context that is over already is refused before anything runs (shared with C06-R12)", Floor: 1, Run: finishedContextIsRefused},
+			{ID: "C05-R18", Title: "nothing is built from the state of the Go runtime", Floor: 1, Run: noStackDumpsInResults},
 		},
 	})
 }
